@@ -265,6 +265,7 @@ func (m *locker) try(ctx context.Context, cancel context.CancelFunc, name string
 	deadline := now.Add(duration)
 	canceltm := time.AfterFunc(duration, cancel)
 	released := int32(0)
+	exiting := int32(0)
 	acquired := int32(0)
 	failures := int32(0)
 
@@ -288,6 +289,10 @@ func (m *locker) try(ctx context.Context, cancel context.CancelFunc, name string
 					}
 				}
 			}
+		}
+		// the lock context must be done before the key that costs the majority is released
+		if atomic.AddInt32(&exiting, 1) >= m.majority {
+			cancel()
 		}
 		if !errors.Is(err, ErrNotLocked) {
 			_ = m.script(context.Background(), delkey, key, val, deadline)
